@@ -822,6 +822,68 @@ func ruleRefKey(c *Ctx) {
 			}
 			c.ob(rule, pr.typ+".fromMap:key", fm.Pos(), ok, fmt.Sprintf("member names read: %v, want only %q", keys, pr.key))
 		}
+		// a constant output can only be right for the empty text: it must be control-dependent on String() == ""
+		if m != nil {
+			var strVar types.Object
+			for o, ds := range c.localDefs(m) {
+				for _, d := range ds {
+					if call, ok := unparen(d).(*ast.CallExpr); ok && len(call.Args) == 0 {
+						if se, ok := unparen(call.Fun).(*ast.SelectorExpr); ok && se.Sel.Name == "String" {
+							strVar = o
+						}
+					}
+				}
+			}
+			nconst, okConst := 0, true
+			ast.Inspect(m.Body, func(n ast.Node) bool {
+				rs, ok := n.(*ast.ReturnStmt)
+				if !ok || len(rs.Results) == 0 {
+					return true
+				}
+				call, ok := unparen(rs.Results[0]).(*ast.CallExpr)
+				if !ok || !c.isConversion(call) || len(call.Args) != 1 {
+					return true
+				}
+				if _, isConst := c.constString(call.Args[0]); !isConst {
+					return true
+				}
+				nconst++
+				under := false
+				for _, cl := range c.literalsAt(m, rs) {
+					be, ok := unparen(cl.e).(*ast.BinaryExpr)
+					if !ok || be.Op != token.EQL || cl.neg {
+						continue
+					}
+					s, isEmpty := c.constString(be.Y)
+					if !isEmpty || s != "" {
+						continue
+					}
+					if id, ok := unparen(be.X).(*ast.Ident); ok && (c.objOf(id) == strVar || c.objOf(id) == c.recvObj(m)) {
+						under = true
+					}
+				}
+				if !under {
+					okConst = false
+				}
+				return true
+			})
+			if nconst > 0 {
+				c.ob(rule, pr.typ+".MarshalJSON:constant-only-when-empty", m.Pos(), okConst,
+					"a constant encoding is returned on a path where the text of the value is not known to be empty: a non-empty value loses its text")
+			}
+		}
+		// the decoder must go through the presence-aware helper shared with Schema.UnmarshalJSON
+		if u := c.decl(c.method(pr.typ, "UnmarshalJSON")); u != nil && fm != nil {
+			via := false
+			ast.Inspect(u.Body, func(n ast.Node) bool {
+				if call, ok := n.(*ast.CallExpr); ok && c.isSpecMethod(call, pr.typ, "fromMap") {
+					via = true
+				}
+				return true
+			})
+			c.ob(rule, pr.typ+".UnmarshalJSON:via-fromMap", u.Pos(), via,
+				"the decoder does not use the presence-aware helper: an empty but present member (the root reference \"\") can no longer be told from an absent one")
+		}
 		// UnmarshalJSON of the type must route through fromMap with the decoded map
 		if u := c.decl(c.method(pr.typ, "UnmarshalJSON")); u != nil {
 			c.saw(c.funcName(u))
